@@ -400,6 +400,13 @@ func RunConc(out string) {
 		}
 		capN := 1 + rnd.Intn(3)
 		c := newCache(policy, capN)
+		// half the histories reach the cache through a StatsRecorder, whose counters are part of the history
+		var bc bgzf.Cache = c
+		var sr *cache.StatsRecorder
+		if rnd.Intn(2) == 0 {
+			sr = &cache.StatsRecorder{Cache: c}
+			bc = sr
+		}
 		// each goroutine owns 2 blocks
 		var init []blockInit
 		var bl [][]interface{}
@@ -457,7 +464,7 @@ func RunConc(out string) {
 							if r.Intn(2) == 0 {
 								runtime.Gosched()
 							}
-							ev, ret := c.Put(blocks[id-1])
+							ev, ret := bc.Put(blocks[id-1])
 							evid := idOf(ev)
 							logEv("ret", tr.M{"g": g + 1, "op": "put", "evid": evid, "ret": ret})
 							if ret {
@@ -469,7 +476,7 @@ func RunConc(out string) {
 						case k < 7:
 							base := bases[r.Intn(3)]
 							logEv("call", tr.M{"g": g + 1, "op": "get", "base": base})
-							b := c.Get(base)
+							b := bc.Get(base)
 							rid, rbase := idOf(b), int64(0)
 							if b != nil {
 								rbase = b.Base()
@@ -491,6 +498,12 @@ func RunConc(out string) {
 							}
 							logEv("ret", tr.M{"g": g + 1, "op": "peek", "exists": ex, "id": pid})
 						case k < 9:
+							if sr != nil {
+								logEv("call", tr.M{"g": g + 1, "op": "stats"})
+								st := sr.Stats()
+								logEv("ret", tr.M{"g": g + 1, "op": "stats", "stats": []int{st.Gets, st.Misses, st.Puts, st.Retains, st.Evictions}})
+								break
+							}
 							logEv("call", tr.M{"g": g + 1, "op": "len"})
 							l := c.Len()
 							logEv("ret", tr.M{"g": g + 1, "op": "len", "n": l})
@@ -525,7 +538,12 @@ func RunConc(out string) {
 			}
 			peek = append(peek, []interface{}{base, ex, id})
 		}
-		t.Ev("final", tr.M{"len": c.Len(), "cap": c.Cap(), "peek": peek})
+		fin := tr.M{"len": c.Len(), "cap": c.Cap(), "peek": peek}
+		if sr != nil {
+			st := sr.Stats()
+			fin["stats"] = []int{st.Gets, st.Misses, st.Puts, st.Retains, st.Evictions}
+		}
+		t.Ev("final", fin)
 	}
 	// race family: a shrinking Resize against Puts of used blocks with new bases on a full
 	// cache, and Drop against Put/Get - the windows in which a non-atomic operation shows
@@ -849,7 +867,192 @@ func RunConc(out string) {
 		}
 		t.Ev("final", tr.M{"len": flen, "cap": fcap, "peek": peek})
 	}
+	// recorder family: a StatsRecorder around a cache (a plain wrapper of LRU/FIFO/Random) whose Put and
+	// Get, once they have taken effect, wait a moment for the other goroutine to finish.  The recorder
+	// counts under its own lock, so the other goroutine's Get/Put/Stats through the recorder cannot
+	// finish before the paused operation has been counted: the wait times out and the history is a
+	// sequential one.  If effect and count are not one atomic step, the other goroutine sees a hit on
+	// a block that has not been put according to the statistics, and the like.
+	nrec := 300
+	if tr.Tier() == "thorough" {
+		nrec = 6000
+	}
+	for i := 0; i < nrec; i++ {
+		policy := []string{"LRU", "FIFO", "Random"}[i%3]
+		capN := 1 + rnd.Intn(3)
+		inner := newCache(policy, capN)
+		pc := &pauseCache{Cache: inner}
+		sr := &cache.StatsRecorder{Cache: pc}
+		nb := capN + 3
+		sbases := []int64{1000, 2000, 3000, 4000, 5000, 6000}
+		var bl [][]interface{}
+		var blocks []bgzf.Block
+		for j := 0; j < nb; j++ {
+			used := rnd.Intn(4) > 0
+			bl = append(bl, []interface{}{sbases[j], used})
+			blocks = append(blocks, bgzf.VerifNewBlock(sbases[j], 1+j+1, used))
+		}
+		t.Begin(policy+"/recorder", tr.M{"policy": policy, "cap": capN, "bases": sbases[:nb], "blocks": bl, "G": 2})
+		idOf := func(b bgzf.Block) int {
+			if b == nil {
+				return 0
+			}
+			for k, x := range blocks {
+				if x == b {
+					return k + 1
+				}
+			}
+			return -1
+		}
+		type sev struct {
+			seq int64
+			ev  string
+			m   tr.M
+		}
+		var seq int64
+		evs := make([][]sev, 3)
+		rec := func(g int, ev string, m tr.M) {
+			evs[g] = append(evs[g], sev{atomic.AddInt64(&seq, 1), ev, m})
+		}
+		statsOf := func() []int {
+			st := sr.Stats()
+			return []int{st.Gets, st.Misses, st.Puts, st.Retains, st.Evictions}
+		}
+		put := func(g, id int) {
+			rec(g, "call", tr.M{"g": g, "op": "put", "id": id})
+			ev, ret := sr.Put(blocks[id-1])
+			rec(g, "ret", tr.M{"g": g, "op": "put", "evid": idOf(ev), "ret": ret})
+		}
+		get := func(g int, base int64) {
+			rec(g, "call", tr.M{"g": g, "op": "get", "base": base})
+			b := sr.Get(base)
+			rid, rbase := idOf(b), int64(0)
+			if b != nil {
+				rbase = b.Base()
+			}
+			rec(g, "ret", tr.M{"g": g, "op": "get", "r": rid, "rbase": rbase})
+		}
+		stats := func(g int) {
+			rec(g, "call", tr.M{"g": g, "op": "stats"})
+			st := statsOf()
+			rec(g, "ret", tr.M{"g": g, "op": "stats", "stats": st})
+		}
+		// goroutine 1 fills part of the cache, sequentially (blocks 1..pre)
+		pre := rnd.Intn(capN + 1)
+		for j := 1; j <= pre; j++ {
+			put(1, j)
+		}
+		// then one paused operation of goroutine 1 against two or three operations of goroutine 2
+		g1put := rnd.Intn(3) > 0
+		g1id := pre + 1 // a block not yet in the cache
+		g1base := sbases[rnd.Intn(pre+1)]
+		var g2 []func()
+		for k := 0; k < 1+rnd.Intn(2); k++ {
+			if rnd.Intn(3) == 0 {
+				id := pre + 2 + k // blocks goroutine 1 never puts
+				g2 = append(g2, func() { put(2, id) })
+			} else {
+				base := sbases[rnd.Intn(pre+2)]
+				if g1put && rnd.Intn(2) == 0 {
+					base = sbases[g1id-1]
+				}
+				g2 = append(g2, func() { get(2, base) })
+			}
+		}
+		g2 = append(g2, func() { stats(2) })
+		done := make(chan struct{})
+		started := make(chan struct{})
+		pc.arm(done, started)
+		var wg sync.WaitGroup
+		res := watch.Call(marker, func() {
+			wg.Add(2)
+			go func() {
+				defer wg.Done()
+				if g1put {
+					put(1, g1id)
+				} else {
+					get(1, g1base)
+				}
+			}()
+			go func() {
+				defer wg.Done()
+				defer close(done)
+				select {
+				case <-started: // goroutine 1's operation has taken effect in the cache
+				case <-time.After(50 * time.Millisecond):
+				}
+				for _, f := range g2 {
+					f()
+				}
+			}()
+			wg.Wait()
+		})
+		var all []sev
+		for _, e := range evs {
+			all = append(all, e...)
+		}
+		sort.Slice(all, func(a, b int) bool { return all[a].seq < all[b].seq })
+		for _, e := range all {
+			t.Ev(e.ev, e.m)
+		}
+		if res.Res != "ok" {
+			t.Ev("abort", tr.M{"res": res.Res, "sig": policy + "/recorder/" + res.Res, "detail": res.Detail})
+			continue
+		}
+		var peek [][]interface{}
+		for _, base := range sbases[:nb] {
+			ex, next := inner.Peek(base)
+			id := 0
+			if ex {
+				id = int(next-base) - 1
+			}
+			peek = append(peek, []interface{}{base, ex, id})
+		}
+		t.Ev("final", tr.M{"len": inner.Len(), "cap": inner.Cap(), "peek": peek, "stats": statsOf()})
+	}
 	tr.Summary(tr.M{"scenarios": t.Scen, "lines": t.Lines, "sigs": t.Sigs()})
+}
+
+// pauseCache passes every call on to the cache it wraps; once armed, its next Put or Get, after it
+// has taken effect, signals started and waits until done is closed (2 ms at most).
+type pauseCache struct {
+	cache.Cache
+	mu      sync.Mutex
+	done    chan struct{}
+	started chan struct{}
+}
+
+func (p *pauseCache) arm(done, started chan struct{}) {
+	p.mu.Lock()
+	p.done, p.started = done, started
+	p.mu.Unlock()
+}
+
+func (p *pauseCache) pause() {
+	p.mu.Lock()
+	done, started := p.done, p.started
+	p.done, p.started = nil, nil
+	p.mu.Unlock()
+	if done == nil {
+		return
+	}
+	close(started)
+	select {
+	case <-done:
+	case <-time.After(2 * time.Millisecond):
+	}
+}
+
+func (p *pauseCache) Put(b bgzf.Block) (bgzf.Block, bool) {
+	e, r := p.Cache.Put(b)
+	p.pause()
+	return e, r
+}
+
+func (p *pauseCache) Get(base int64) bgzf.Block {
+	b := p.Cache.Get(base)
+	p.pause()
+	return b
 }
 
 var _ = fmt.Sprint
